@@ -16,7 +16,8 @@ REQUIRED_OBS = ["programs_compared", "tracer_events", "exceptions_agreed", "enum
 RULE = (
     "control-flow skeletons wrapped in `def w(): ...; r = w()`: (a) exhaustive depth 2: every outer construct x slot x inner construct x "
     "slot x jump {fall-through, break, continue, return, raise EA/EB/EC/KeyError, bare raise, raise-from, assert} over {if, for, for-else, "
-    "while, while-else, try-except, try-finally, try-except-else-finally, with (1-2 managers, suppressing or not), nested def}; (b) random "
+    "while, while-else, try-except, try-finally, try-except-else-finally, with (1-2 managers, suppressing or not), nested def}, handlers incl. an `except` "
+    "expression whose value changes at every evaluation; (b) random "
     "skeletons to depth 3-5 with random handler clauses, loop counts 0-3, failing __enter__/__exit__; compared with CPython: tracer log "
     "(incl. __enter__/__exit__ calls with the exception type they saw), returned value, exception type, final globals. Non-trivial: "
     "nesting >= 2 constructs and >= 3 tracer events; distinct by source hash."
